@@ -653,6 +653,9 @@ class MQTTProtocol(MQTTBaseProtocol):
             del self.factory.windowPubRelease[self.addr][k]
             request.deferred.errback(reason)
 
+        # so do the received QoS 2 messages waiting for a PUBREL that will not come
+        self.factory.windowPubRx[self.addr].clear()
+
         # messages still waiting for a free window slot belong to the session too
         queue = self.factory.queuePublishTx[self.addr]
         while queue:
